@@ -43,6 +43,11 @@ def cond_facts(f, cond, polarity, x):
             return cond_facts(f, i.args[0], True, x) | cond_facts(f, i.args[1], True, x)
         if not polarity and ir.const_of(f, i.args[1]) in (1, -1):
             return cond_facts(f, i.args[0], False, x) | cond_facts(f, i.args[2], False, x)
+        # select c, t, true == !c || t : false means c && !t ;  select c, false, e == !c && e : true means !c && e
+        if not polarity and ir.const_of(f, i.args[2]) in (1, -1):
+            return cond_facts(f, i.args[0], True, x) | cond_facts(f, i.args[1], False, x)
+        if polarity and ir.const_of(f, i.args[1]) == 0:
+            return cond_facts(f, i.args[0], False, x) | cond_facts(f, i.args[2], True, x)
         return facts
     if i.op != "icmp":
         return facts
